@@ -687,6 +687,20 @@ func (s *Sched) ParkedIn() []string {
 	return out
 }
 
+// LockWaiters lists the functions in which other tasks are waiting for a mutex (coverage probes).
+func (s *Sched) LockWaiters() []string {
+	s.mu.Lock()
+	defer s.mu.Unlock()
+	var out []string
+	for _, t := range s.tasks {
+		if t.state == stLockWait && t != s.cur && t.site > 0 && t.site < len(s.Sites) {
+			out = append(out, s.Sites[t.site].Fn)
+		}
+	}
+	sort.Strings(out)
+	return out
+}
+
 func CurName() string {
 	if S == nil || S.cur == nil {
 		return ""
